@@ -83,6 +83,7 @@ let () =
   let implfile = if Array.length Sys.argv > 2 then Some Sys.argv.(2) else None in
   (* load implementation observations: case id -> (opidx -> tokens) *)
   let impl_tbl : (string, (int, string list) Hashtbl.t) Hashtbl.t = Hashtbl.create 1024 in
+  let impl_raw : (string, string list) Hashtbl.t = Hashtbl.create 1024 in
   (match implfile with
   | None -> ()
   | Some fn ->
@@ -95,12 +96,14 @@ let () =
                   match int_of_string_opt idx with Some i -> Hashtbl.add t i rest | None -> ())
               | _ -> ())
             lines;
+          Hashtbl.replace impl_raw id lines;
           Hashtbl.replace impl_tbl id t));
   read_cases casefile (fun id lines ->
       let impl = match Hashtbl.find_opt impl_tbl id with Some t -> t | None -> Hashtbl.create 1 in
       let ctx = { opidx = 0; impl } in
       pr "case %s\n" id;
       Ops.case_begin ();
+      (match Hashtbl.find_opt impl_raw id with Some ls -> Ops.load_oracle ls | None -> ());
       List.iter
         (fun l ->
           match split_ws l with
